@@ -32,7 +32,7 @@ class EvMonWorld(World):
         return {k: {"reached": len(states.get(k, ())), "feasible": 24}}
 
     def gen_config(self, rng, prop):
-        n = rng.choice([0, 1, 1, 2, 3, 4, 5, 8, 12])
+        n = rng.choice([0, 1, 1, 2, 3, 4, 5, 8, 12, 17, 33])
         return {"srcs": [rng.choice(TRIGGERS) for _ in range(n)],
                 "trigger": rng.choice(TRIGGERS)}
 
